@@ -65,10 +65,41 @@ Theorem refusals s o : (exists e, snd (dstep s o) = Some e) <->
   | RUnlink => r_link (rd s) = None
   | SUnlink => s_link (sd s) = None
   | SSetLabels _ => s_link (sd s) <> None
+  | AppendRange tk lb un => sarg_bad lb = true \/ sarg_bad un = true \/ tk = TkBad \/ (exists l, tk = TkOk l /\ descends l = true)
+  | AppendSampled iv lb un off => (forall z, iv <> NmOk z) \/ sarg_bad lb = true \/ sarg_bad un = true \/ off = NmBad
+  | AppendSet l => l = TkBad
   | _ => False
   end.
 Proof.
-  destruct o; cbn [dstep];
-    repeat match goal with |- context [match ?x with _ => _ end] => destruct x eqn:? end; cbn;
-    (split; [intros [e H] | intros H]); try discriminate; try congruence; try contradiction; eauto.
+  assert (OLD : forall o', match o' with AppendRange _ _ _ | AppendSampled _ _ _ _ | AppendSet _ => False | _ => True end ->
+            (exists e, snd (dstep s o') = Some e) <->
+            match o' with
+            | RSetTicks l => descends l = true
+            | RLink idx | SLink idx => link_check (tg s) idx <> None
+            | RUnlink => r_link (rd s) = None
+            | SUnlink => s_link (sd s) = None
+            | SSetLabels _ => s_link (sd s) <> None
+            | _ => False
+            end).
+  { intros o' Ho'. destruct o'; try contradiction; cbn [dstep];
+      repeat match goal with |- context [match ?x with _ => _ end] => destruct x eqn:? end; cbn;
+      (split; [intros [e H] | intros H]); try discriminate; try congruence; try contradiction; eauto. }
+  destruct o; try (apply OLD; exact I).
+  - (* AppendRange *)
+    destruct label as [lb| |], unit as [un| |], t as [l| |]; cbn; try destruct (descends l) eqn:Ed; cbn;
+      (split; [intros [e H] | intros H]); try discriminate; eauto 8;
+      repeat match goal with
+             | H : _ \/ _ |- _ => destruct H
+             | H : exists _, _ /\ _ |- _ => destruct H as (? & ? & ?)
+             end; try discriminate; try congruence; eauto.
+  - (* AppendSampled *)
+    destruct itv as [z| |], label as [lb| |], unit as [un| |], offset as [o| |]; cbn;
+      (split; [intros [e H] | intros H]); try discriminate; eauto 8;
+      try (left; intros z0; discriminate);
+      repeat match goal with
+             | H : _ \/ _ |- _ => destruct H
+             | H : forall z0, NmOk _ <> NmOk z0 |- _ => exfalso; eapply H; reflexivity
+             end; try discriminate; eauto.
+  - (* AppendSet *)
+    destruct l as [l| |]; cbn; (split; [intros [e H] | intros H]); try discriminate; eauto.
 Qed.
